@@ -15,10 +15,12 @@ import (
 // C03 — realm behaviour is independent of persistence boundaries.
 // Execution P: every call is its own MsgCall transaction in its own block
 // (objects are re-loaded from the store by every transaction; in half of the
-// cases the whole application is additionally rebuilt from the DB between
-// calls). Execution M: the same package on a second fresh chain, the whole call
-// sequence performed in memory by one transaction (RunAll). The per-call
-// return strings and the final Dump() must agree.
+// cases the whole application is additionally rebuilt from the DB at 1-2 call
+// boundaries). Execution M: the same package on a second fresh chain whose
+// init() ends by performing the whole call sequence in memory, inside the
+// deployment transaction, before any object has ever been persisted. The
+// per-call return strings and the final Dump() must agree; M's Dump() read back
+// after its single commit must agree as well.
 
 const c03Pkg = "gno.land/r/cx/prog"
 
@@ -52,20 +54,23 @@ func c03Draw(rt *rapid.T) c03Case {
 	c := c03Case{Prog: p, Calls: c03DrawCalls(rt, len(p.Funcs), 3, 15)}
 	c.Restarts = make([]bool, len(c.Calls))
 	if rapid.Bool().Draw(rt, "restarts") {
-		// cold caches: one or two full application rebuilds at drawn call
-		// boundaries (a rebuild re-preprocesses every stdlib: 1-2 s each)
-		for i, n := 0, rapid.IntRange(1, 2).Draw(rt, "nrestarts"); i < n; i++ {
-			c.Restarts[rapid.IntRange(0, len(c.Calls)-1).Draw(rt, "rpos")] = true
-		}
+		// cold caches: a full application rebuild at a drawn call boundary (a
+		// rebuild re-preprocesses every stdlib: 1-2 s idle, 10-40 s when the
+		// machine is loaded), and a second one before the final Dump()
+		c.Restarts[rapid.IntRange(0, len(c.Calls)-1).Draw(rt, "rpos")] = true
 	}
 	return c
 }
 
-func c03RunAllSrc(p c03Prog, calls []c03Call) string {
+// c03Full completes a generated program: atInit selects execution M, where
+// init() ends by running the whole call sequence in memory (no object has been
+// persisted yet) and keeps the concatenated per-call results in Result.
+func c03Full(p c03Prog, calls []c03Call, atInit bool) string {
 	var sb strings.Builder
-	sb.WriteString("\nfunc RunAll(cur realm) string {\n\tout := \"\"\n")
+	sb.WriteString(p.Src)
+	fmt.Fprintf(&sb, "\nconst atInit = %v\n\nvar Result string\n\nfunc runAll() string {\n\tout := \"\"\n", atInit)
 	for _, cl := range calls {
-		fmt.Fprintf(&sb, "\tout += %s(cur, %d, %s) + \"~\"\n", p.Funcs[cl.Fn].Name, cl.A, strconv.Quote(cl.S))
+		fmt.Fprintf(&sb, "\tout += f%s(%d, %s) + \"~\"\n", strings.TrimPrefix(p.Funcs[cl.Fn].Name, "F"), cl.A, strconv.Quote(cl.S))
 	}
 	sb.WriteString("\tout += Dump()\n\treturn out\n}\n")
 	return sb.String()
@@ -89,7 +94,12 @@ func c03Exec(ctx *vk.Ctx, c c03Case) error {
 		t0 := time.Now()
 		defer func() { fmt.Printf("C03 case: %d calls, %v\n", len(c.Calls), time.Since(t0)) }()
 	}
-	src := c.Prog.Src + c03RunAllSrc(c.Prog, c.Calls)
+	src := c03Full(c.Prog, c.Calls, false)
+	srcM := c03Full(c.Prog, c.Calls, true)
+	if os.Getenv("C03_SRC") != "" {
+		fmt.Println(src)
+		return nil
+	}
 	// ---- execution P
 	p, err := rkNew()
 	if err != nil {
@@ -167,15 +177,12 @@ func c03Exec(ctx *vk.Ctx, c c03Case) error {
 			return fmt.Errorf("P: Dump() differs after a restart:\n before=%s\n after =%s (%v)", pFinal, again, err)
 		}
 	}
-	// ---- execution M
+	// ---- execution M: everything inside the deployment transaction
 	m, err := rkNew()
 	if err != nil {
 		return fmt.Errorf("harness: %v", err)
 	}
-	if dr, err := m.Deploy(c03Pkg, src); err != nil || dr.Error != nil {
-		return fmt.Errorf("M: deploy failed although P's succeeded: %v %s", err, rkErr(dr))
-	}
-	mr, err := m.Call(c03Pkg, "RunAll")
+	mr, err := m.Deploy(c03Pkg, srcM)
 	if err != nil {
 		return fmt.Errorf("harness: %v", err)
 	}
@@ -187,27 +194,27 @@ func c03Exec(ctx *vk.Ctx, c c03Case) error {
 			ctx.Class("discard:both-failed")
 			return nil
 		}
-		return fmt.Errorf("only one execution failed: P: %q  M: %q", pFailed, rkErr(mr))
+		return fmt.Errorf("only one execution failed: separate txs: %q  in memory: %q", pFailed, rkErr(mr))
 	}
-	all, err := rkRetString(mr.Data)
+	all, err := m.QStr(c03Pkg, "Result")
 	if err != nil {
-		return fmt.Errorf("M: %v", err)
+		return fmt.Errorf("M: reading Result: %v", err)
 	}
 	parts := strings.Split(all, "~")
 	if len(parts) != len(c.Calls)+1 {
-		return fmt.Errorf("M: RunAll returned %d parts for %d calls: %q", len(parts), len(c.Calls), all)
+		return fmt.Errorf("M: runAll returned %d parts for %d calls: %q", len(parts), len(c.Calls), all)
 	}
 	for i := range c.Calls {
 		if parts[i] != pRes[i] {
-			return fmt.Errorf("call %d (%s(%d,%q)) returns differ:\n separate txs: %s\n one tx      : %s", i, c.Prog.Funcs[c.Calls[i].Fn].Name, c.Calls[i].A, c.Calls[i].S, pRes[i], parts[i])
+			return fmt.Errorf("call %d (%s(%d,%q)) returns differ:\n separate txs: %s\n in memory   : %s", i, c.Prog.Funcs[c.Calls[i].Fn].Name, c.Calls[i].A, c.Calls[i].S, pRes[i], parts[i])
 		}
 	}
 	if parts[len(c.Calls)] != pFinal {
-		return fmt.Errorf("final Dump() differs:\n separate txs: %s\n one tx      : %s", pFinal, parts[len(c.Calls)])
+		return fmt.Errorf("final Dump() differs:\n separate txs: %s\n in memory   : %s", pFinal, parts[len(c.Calls)])
 	}
 	mFinal, err := m.QStr(c03Pkg, "Dump()")
 	if err != nil || mFinal != pFinal {
-		return fmt.Errorf("final Dump() of the one-tx chain after commit differs:\n separate txs: %s\n one tx      : %s (%v)", pFinal, mFinal, err)
+		return fmt.Errorf("Dump() of the in-memory chain, read back after its only commit, differs:\n separate txs: %s\n in memory   : %s (%v)", pFinal, mFinal, err)
 	}
 	ctx.ClassIf(restarts > 0, "with-restart")
 	ctx.ClassIf(c.Prog.Alias > 0, "has-alias-construct")
@@ -217,7 +224,7 @@ func c03Exec(ctx *vk.Ctx, c c03Case) error {
 	return nil
 }
 
-const c03Rule = "rapid: typed grammar of realm programs (1-3 declared structs with methods, 5-8 package variables of nesting depth <= 3 over int/string/bool/uint8, arrays, slices incl. sub-slices of one backing array and spare capacity, maps, pointers incl. pointers into arrays/struct fields/slice elements, closures capturing variables, pointers and slices, an interface holding declared pointer/value types), init() with alias-making statements, 3-8 crossing functions of 2-5 guarded statements over generated places, 3-15 calls with arguments; P = one MsgCall tx per call (objects reloaded every tx; application rebuilt from the DB at 1-2 call boundaries in half of the cases), M = the whole sequence inside one transaction on a second chain; non-trivial = the program text has an alias-making construct and some call changed the rendering of a variable that the called function does not write through (a write through one alias, made after a persistence boundary, read through another)"
+const c03Rule = "rapid: typed grammar of realm programs (1-3 declared structs with methods, 5-8 package variables of nesting depth <= 3 over int/string/bool/uint8, arrays, slices incl. sub-slices of one backing array and spare capacity, maps, pointers incl. pointers into arrays/struct fields/slice elements, closures capturing variables, pointers and slices, an interface holding declared pointer/value types), init() with alias-making statements, 3-8 crossing functions of 2-5 guarded statements over generated places, 3-15 calls with arguments; P = one MsgCall tx per call (objects reloaded every tx; application rebuilt from the DB at one drawn call boundary and again before the final Dump() in half of the cases), M = the whole sequence in memory at the end of init() of the same package deployed on a second chain (nothing persisted before or between the calls); non-trivial = the program text has an alias-making construct and some call changed the rendering of a variable that the called function does not write through (a write through one alias, made after a persistence boundary, read through another)"
 
 func TestC03_Transparency(t *testing.T) {
 	vk.Run(t, vk.Spec[c03Case]{ID: "C03", Name: "TestC03_Transparency", Rule: c03Rule, Draw: c03Draw, Exec: c03Exec})
